@@ -308,13 +308,13 @@ func ensureRig() {
 	rigErr = "the TCP-bridge rig (frontend, backend processes, TCP server) did not come up: " + err.Error()
 }
 
-func runPlan(r *rig, id int, p *plan) (down []byte, sentUp []byte, err error) {
+func runPlan(r *rig, id int, p *plan) (down []byte, sentUp []byte, timedOut bool, err error) {
 	r.mu.Lock()
 	r.plans[id] = p
 	r.mu.Unlock()
 	c, err := net.DialTimeout("tcp", r.frontAddr, 5*time.Second)
 	if err != nil {
-		return nil, nil, err
+		return nil, nil, false, err
 	}
 	defer c.Close()
 	wantDown := 0
@@ -330,6 +330,9 @@ func runPlan(r *rig, id int, p *plan) (down []byte, sentUp []byte, err error) {
 			n, err := c.Read(buf)
 			down = append(down, buf[:n]...)
 			if err != nil {
+				if ne, ok := err.(net.Error); ok && ne.Timeout() {
+					timedOut = true
+				}
 				return
 			}
 		}
@@ -339,14 +342,15 @@ func runPlan(r *rig, id int, p *plan) (down []byte, sentUp []byte, err error) {
 		d := pattern(id, 0, sz+k)[:sz]
 		sentUp = append(sentUp, d...)
 		if _, err := c.Write(d); err != nil {
-			return down, sentUp, err
+			<-done
+			return down, sentUp, timedOut, err
 		}
 	}
 	if p.half {
 		c.(*net.TCPConn).CloseWrite()
 	}
 	<-done
-	return down, sentUp, nil
+	return down, sentUp, timedOut, nil
 }
 
 func (r *rig) waitUp(id, want int) []byte {
@@ -392,6 +396,7 @@ func eval(tier string, i int) vx.Exec {
 	type res struct {
 		id           int
 		down, sentUp []byte
+		timedOut     bool
 		err          error
 		p            *plan
 	}
@@ -408,7 +413,7 @@ func eval(tier string, i int) vx.Exec {
 		wg.Add(1)
 		go func(k int, p *plan) {
 			defer wg.Done()
-			out[k].down, out[k].sentUp, out[k].err = runPlan(r, out[k].id, p)
+			out[k].down, out[k].sentUp, out[k].timedOut, out[k].err = runPlan(r, out[k].id, p)
 		}(k, p)
 	}
 	wg.Wait()
@@ -420,6 +425,14 @@ func eval(tier string, i int) vx.Exec {
 		}
 		up := r.waitUp(o.id, len(o.sentUp))
 		obs = append(obs, fmt.Sprintf("conn%d up %d/%d down %d/%d", k, len(up), len(o.sentUp), len(o.down), len(wantDown)))
+		if o.timedOut && len(o.down) <= len(wantDown) && bytes.Equal(o.down, wantDown[:len(o.down)]) {
+			// a correct prefix and then 20 s of silence on a loaded machine: not judged here; stalls and
+			// deadlocks of the bridge are decided by harness bridge under the controlled scheduler
+			x.Violations = nil
+			x.Infra = fmt.Sprintf("no data for 20 s on connection %d of %s (machine overloaded?)", k, c)
+			r.served = 1 << 20
+			return x
+		}
 		if !bytes.Equal(o.down, wantDown) {
 			x.Violations = append(x.Violations, fmt.Sprintf("DOWNSTREAM: connection %d of %s: the client read %d bytes, the server wrote %d; first difference at %d (err %v)", k, c, len(o.down), len(wantDown), firstDiff(o.down, wantDown), o.err))
 		}
